@@ -30,24 +30,93 @@ def heurF (limit n : Nat) : Nat :=
   let b := Float32.ofBits (UInt32.ofNat Gen.FactsC17.poissonBBits)
   (Float32.ofNat limit * (1 / Float32.ofNat n) * a + b).toUInt64.toNat
 
-def parseVal (s : String) : Option (Option Val) :=
-  if s == "n" then some none
-  else if s.startsWith "i" then ((s.drop 1).toString.toInt?).map fun i => some (Val.int i)
-  else if s.startsWith "s" then some (some (Val.str (s.drop 1).toString))
-  else none
+/-! values of a result's `DecodedData`, in the syntax of the C06 stream:
+`N | B0 | B1 | I<w>:<dec> | U<w>:<dec> | F<hex8> | D<hex16> | S<hex> | X<hex> | A[v,…] | M{key=v,…}` -/
 
-/-- one hit: `id~score~key~key…` -/
+abbrev P (α : Type) := List Char → Option (α × List Char)
+
+def takeWhileC (p : Char → Bool) : List Char → List Char × List Char
+  | [] => ([], [])
+  | c :: cs => if p c then let (a, b) := takeWhileC p cs; (c :: a, b) else ([], c :: cs)
+
+def isHexC (c : Char) : Bool := c.isDigit || ('a' ≤ c && c ≤ 'f')
+
+def pHexBytes (cs : List Char) : Option (Bytes × List Char) :=
+  let (h, rest) := takeWhileC isHexC cs
+  (if h.isEmpty then some [] else bytesOfHex (String.ofList h)).map (fun b => (b, rest))
+
+def pInt (cs : List Char) : Option (Int × List Char) :=
+  match cs with
+  | '-' :: rest =>
+    let (d, r) := takeWhileC Char.isDigit rest
+    (String.ofList d).toNat?.map (fun n => (-(n : Int), r))
+  | _ =>
+    let (d, r) := takeWhileC Char.isDigit cs
+    (String.ofList d).toNat?.map (fun n => ((n : Int), r))
+
+open Sema.C06 (Val Doc SortOpt) in
+mutual
+partial def pVal : P Val
+  | 'N' :: r => some (.nil, r)
+  | 'B' :: '0' :: r => some (.bool false, r)
+  | 'B' :: '1' :: r => some (.bool true, r)
+  | 'I' :: r =>
+    let (w, r1) := takeWhileC Char.isDigit r
+    match r1 with
+    | ':' :: r2 => (pInt r2).bind fun (v, r3) => (String.ofList w).toNat?.map fun wn => (.int wn (BitVec.ofInt 64 v), r3)
+    | _ => none
+  | 'U' :: r =>
+    let (w, r1) := takeWhileC Char.isDigit r
+    match r1 with
+    | ':' :: r2 => (pInt r2).bind fun (v, r3) => (String.ofList w).toNat?.map fun wn => (.uint wn (BitVec.ofNat 64 v.toNat), r3)
+    | _ => none
+  | 'F' :: r =>
+    let (h, r1) := takeWhileC isHexC r
+    (natOfHex (String.ofList h)).map fun n => (.f32 (BitVec.ofNat 32 n), r1)
+  | 'D' :: r =>
+    let (h, r1) := takeWhileC isHexC r
+    (natOfHex (String.ofList h)).map fun n => (.f64 (BitVec.ofNat 64 n), r1)
+  | 'S' :: r => (pHexBytes r).map fun (b, r1) => (.str b, r1)
+  | 'X' :: r => (pHexBytes r).map fun (b, r1) => (.bin b, r1)
+  | 'A' :: '[' :: r => (pVals r).map fun (l, r1) => (.arr l, r1)
+  | 'M' :: '{' :: r => (pFields r).map fun (m, r1) => (.map m, r1)
+  | _ => none
+partial def pVals : P (List Val)
+  | ']' :: r => some ([], r)
+  | ',' :: r => pVals r
+  | cs => (pVal cs).bind fun (v, r) => (pVals r).map fun (vs, r2) => (v :: vs, r2)
+partial def pFields : P Doc
+  | '}' :: r => some ([], r)
+  | ',' :: r => pFields r
+  | cs =>
+    let (k, r) := takeWhileC (fun c => c.isAlphanum || c == '_') cs
+    match r with
+    | '=' :: r1 => (pVal r1).bind fun (v, r2) => (pFields r2).map fun (m, r3) => ((String.ofList k, v) :: m, r3)
+    | _ => none
+end
+
+/-- `opts=<path>:a|d,…` — the sort options of the request (`models.SortOption{Property, Descending}`;
+the path is `strings.Split(Property, ".")`) -/
+def parseOpts (s : String) : List Sema.C06.SortOpt :=
+  (splitNE s ",").map fun e =>
+    match e.splitOn ":" with
+    | [p, d] => ⟨p.splitOn ".", d == "d"⟩
+    | _ => ⟨e.splitOn ".", false⟩
+
+/-- one hit: `id~score~<DecodedData as M{…}>` -/
 def parseHit (s : String) : Option Hit :=
   match s.splitOn "~" with
-  | i :: sc :: ks => do
-    let id ← i.toNat?; let score ← sc.toInt?; let keys ← ks.mapM parseVal
-    pure ⟨id, score, keys⟩
+  | [i, sc, d] => do
+    let id ← i.toNat?; let score ← sc.toInt?
+    match pVal d.toList with
+    | some (.map m, []) => pure ⟨id, score, m⟩
+    | _ => none
   | _ => none
 
 def parseAnswers (s : String) : Option (List (Option (List Hit))) :=
   if s == "" then some [] else
   (s.splitOn "|").mapM fun a =>
-    if a == "x" then some none else (splitNE a ",").mapM parseHit |>.map some
+    if a == "x" then some none else (splitNE a ";").mapM parseHit |>.map some
 
 def sortNat (l : List Nat) : List Nat := sortBy (fun a b => decide (a ≤ b)) l
 
@@ -169,7 +238,7 @@ def stepLine (st : St) (line : String) : St × String :=
     if (kv rest "inconclusive").isSome then (st, "inconclusive") else
     match (kv rest "limit") >>= (·.toNat?), (kv rest "offset") >>= (·.toNat?), kv rest "mode", (kv rest "answers") >>= parseAnswers with
     | some limit, some offset, some mode, some answers =>
-      let opts := (splitNE ((kv rest "opts").getD "-") ",").map (· == "1")
+      let opts := parseOpts ((kv rest "opts").getD "-")
       let le : Hit → Hit → Bool := if mode == "keys" then leKeys opts else leScore
       -- the model's availability flags (for an op under a fault: the measured `ans` bits) and the oracle's must agree
       let ups : Option (List Bool) := match (kv rest "ans").map parseAns with
